@@ -1,5 +1,16 @@
 From Coq Require Import List.
-From VV Require Import Sched.Model.
-Theorem C01_placeholder : forall c s, terminal s = true -> master_step c s = None.
-Proof. intros c s H. unfold terminal in H. unfold master_step. destruct (mp s); try discriminate; reflexivity. Qed.
-Print Assumptions C01_placeholder.
+From VV Require Import Sched.Model Sched.Defs Sched.Inv Sched.ProofsC01.
+
+Theorem C01_start_after_deps :
+  forall c e0 st0 clk s w t t0,
+  wf_cfg c -> junk_free e0 -> reachable c e0 st0 clk s ->
+  w < nworkers c -> wp s w = WStart t t0 ->
+  forall d, In d (deps c t) ->
+    final_at (env s) d = true
+    /\ (stat (env s) d = DONE ->
+          (started s d = st0 d /\ env s d = e0 d)
+          \/ (started s d = S (st0 d)
+              /\ (exists a b, esc (env s d) = Some a /\ eec (env s d) = Some b)
+              /\ (has_upd (oc c d) = true -> ever (env s d) = Some (started s d)))).
+Proof. exact start_after_deps. Qed.
+Print Assumptions C01_start_after_deps.
